@@ -1,6 +1,8 @@
 import Pyunicorn.Lemmas.Access
 import Pyunicorn.Lemmas.WhileSafe
+import Pyunicorn.Lemmas.Binary64
 import Pyunicorn.Generated.StructC20
+import Pyunicorn.Generated.StructC20Pyx
 /-!
 # C20 — compiled kernels never touch memory outside their arrays
 
@@ -227,6 +229,59 @@ theorem symbolRnd_in_range_partial (rnd : Rat → Rat) (hmono : ∀ x y, x ≤ y
       rwa [h0] at this
     exact truncInt_bounds h3 (hlt _ h2 hr (hidem _))
   · omega
+
+/-- **round 3: the hypothesis `hlt` discharged for IEEE-754 binary64.**  For every rounding
+`rnd` that is monotone, fixes 0, is idempotent, returns binary64 values and returns a *nearest*
+one (any tie-breaking rule — `B64.Nearest`), every `scaling ≥ 0`, every sample `x ≥ range_min`
+and every `1 ≤ n_bins < 2^31` (Cython's `int n_bins`), the symbol computed with a rounding after
+each of the three floating-point operations lies in `[0, n_bins)`: the rounded product of a
+double `r < 1` with `n_bins` is strictly below `n_bins` (`B64.b64_mul_lt`: `r ≤ 1 - 2^-53`
+puts `r·n_bins` at least half a grid step below `n_bins`, and exactly half a step only where
+the product is itself a double).  A binary32 value is a binary64 value, so this covers the
+`float` rescaled value of `_mutual_information` as well. -/
+theorem symbolRnd_in_range_b64 (rnd : Rat → Rat) (hmono : ∀ x y, x ≤ y → rnd x ≤ rnd y)
+    (h0 : rnd 0 = 0) (hidem : ∀ x, rnd (rnd x) = rnd x) (hnear : Pyunicorn.B64.Nearest rnd)
+    (hrep : ∀ x, Pyunicorn.B64.IsB64 (rnd x)) (s m v : Rat) (nb : Int)
+    (hs : 0 ≤ s) (hv : m ≤ v) (hnb : 1 ≤ nb) (hnb31 : nb < 2 ^ 31) :
+    0 ≤ symbolRnd rnd s m nb v ∧ symbolRnd rnd s m nb v < nb :=
+  symbolRnd_in_range_partial rnd hmono h0 hidem s m v nb hs hv hnb
+    (fun r hr0 hr1 hfix =>
+      Pyunicorn.B64.b64_mul_lt rnd hnear r (hfix ▸ hrep r) hr0 hr1 nb hnb hnb31)
+
+/-- **round 3: data with infinities.**  With IEEE semantics for `±inf` and NaN (`XR`): whenever
+`scaling` is not negative (`≥ 0`, `+inf` — the float overflow of `1/(max-min)` — or NaN) and
+`range_min ≤ x` in the extended order or one of them is NaN (what `min` of the data gives:
+`-inf ≤ x`, and NaN as soon as any entry is NaN), the rescaled value is never `-inf` — so no
+undefined float→int conversion is executed — and the symbol lies in `[0, n_bins)`:
+`inf - inf`, `0·inf` are NaN and take the `else` branch, `+inf` is not `< 1.0`. -/
+theorem symbolX_in_range (s m x : XR) (nb : Int) (hnb : 1 ≤ nb) (hs : s.notNeg = true)
+    (hmx : m.isNan = true ∨ x.isNan = true ∨ XR.le m x = true) :
+    ∃ k, symbolX s m nb x = some k ∧ 0 ≤ k ∧ k < nb := by
+  have hr : (XR.mul s (XR.sub x m)).notNeg = true :=
+    XR.mul_notNeg _ _ hs (XR.sub_notNeg m x hmx)
+  unfold symbolX
+  generalize XR.mul s (XR.sub x m) = r at hr
+  cases r with
+  | nan => exact ⟨nb - 1, rfl, by omega, by omega⟩
+  | pinf => exact ⟨nb - 1, rfl, by omega, by omega⟩
+  | ninf => simp [XR.notNeg] at hr
+  | fin q =>
+    have hq : 0 ≤ q := by simpa [XR.notNeg] using hr
+    refine ⟨_, rfl, ?_⟩
+    split
+    · rename_i hlt
+      apply truncInt_bounds
+      · exact Rat.mul_nonneg hq (by exact_mod_cast (by omega : (0:Int) ≤ nb))
+      · have hnbpos : (0 : Rat) < (nb : Rat) := by exact_mod_cast (by omega : (0:Int) < nb)
+        calc q * (nb : Rat) < 1 * (nb : Rat) := Rat.mul_lt_mul_of_pos_right hlt hnbpos
+          _ = nb := by simp
+    · omega
+
+/-- `+inf` in the data (`max = +inf`, so `scaling = 1/inf = 0`): finite samples get bin 0, the
+infinite one `0·inf = NaN` the last bin; a rescaled `-inf` (negative scaling) is the undefined case -/
+example : symbolX (.fin 0) (.fin 1) 4 (.fin 3) = some 0 ∧ symbolX (.fin 0) (.fin 1) 4 .pinf = some 3
+    ∧ symbolX (.fin 1) .ninf 4 (.fin 3) = some 3 ∧ symbolX (.fin (-1)) (.fin 0) 4 .pinf = none := by
+  decide +kernel
 
 /-- exact arithmetic is an instance (so the hypotheses are satisfiable), and there
 `symbolRnd` is `symbol` -/
@@ -805,6 +860,336 @@ theorem raw_pointer_census :
       [("climate", "mutual_information", 5), ("climate", "spearman_corr", 3),
        ("core", "_edge_current_flow_betweenness", 3), ("core", "_vertex_current_flow_betweenness", 2),
        ("timeseries", "_test_mutual_information", 8), ("timeseries", "_test_pearson_correlation", 3)] := by
+  decide
+
+end Pyunicorn.Access
+
+/-! # The typed-buffer Cython kernels (round 3)
+
+`Generated/StructC20Pyx.lean` (translate/gen_C20.py + c20_pyx.py, regenerated on every run)
+lists, for every function of the four `numerics.pyx`, every subscript of a typed buffer whose
+index expressions are closed-form integer arithmetic over the integer parameters, the
+variables of the enclosing `for v in range(..)` loops and single-assignment locals — one
+`PSite` per axis, with the extent of that axis (the allocation expression of a local array,
+the shape symbol `<arr>_<axis>` of a parameter) and the loop ranges.  `<kernel>_contract` is
+what the Python callers pass (translate/c20_contracts.json; the harness evaluates the same
+relations on every kernel call it observes under the public API).  Each theorem below says:
+under the contract, for **all** sizes and all values of the loop variables in their ranges,
+every such index lies in `[0, extent)` — so these subscripts never raise IndexError on the
+public path and would be inside their buffers even without Cython's bounds check; a negative
+index (which `wraparound=False` would not wrap) is never formed.  Subscripts whose index is
+read from memory, drawn at random or advanced by a `while` loop are listed in
+`<kernel>_checked` and stay with the bounds check (`raw_pointer_census`), except the
+adaptive-neighbourhood and visibility scans, which are modelled in `WhileKernels`. -/
+namespace Pyunicorn.Access
+open Pyunicorn.Generated.StructC20Pyx
+
+/-- every listed index is inside its axis whenever the loop variables are in their ranges -/
+def PFine (l : List PSite) : Prop := ∀ s ∈ l, s.g = true → 0 ≤ s.idx ∧ s.idx < s.dim
+
+macro "psites_auto" : tactic => `(tactic| (
+  simp only [PFine, List.forall_mem_cons, List.not_mem_nil, false_imp_iff, implies_true, and_true]
+  (with_reducible and_intros) <;> (
+    intro g
+    try simp only [Bool.and_eq_true, decide_eq_true_eq] at g
+    omega)))
+
+/-- `core:overwriteAdjacency` (numerics.pyx:122): 4 closed-form index expressions; 2 subscripts left to the bounds check -/
+theorem core_overwriteAdjacency_fine (v : String → Int) (h : core_overwriteAdjacency_contract v) :
+    PFine (core_overwriteAdjacency_psites v) := by
+  unfold core_overwriteAdjacency_contract at h
+  unfold core_overwriteAdjacency_psites
+  psites_auto
+
+/-- `core:_cross_transitivity` (numerics.pyx:200): 3 closed-form index expressions; 4 subscripts left to the bounds check -/
+theorem core_cross_transitivity_fine (v : String → Int) (h : core_cross_transitivity_contract v) :
+    PFine (core_cross_transitivity_psites v) := by
+  unfold core_cross_transitivity_contract at h
+  unfold core_cross_transitivity_psites
+  psites_auto
+
+/-- `core:_nsi_cross_transitivity` (numerics.pyx:228): 3 closed-form index expressions; 6 subscripts left to the bounds check -/
+theorem core_nsi_cross_transitivity_fine (v : String → Int) (h : core_nsi_cross_transitivity_contract v) :
+    PFine (core_nsi_cross_transitivity_psites v) := by
+  unfold core_nsi_cross_transitivity_contract at h
+  unfold core_nsi_cross_transitivity_psites
+  psites_auto
+
+/-- `core:_cross_local_clustering` (numerics.pyx:260): 6 closed-form index expressions; 3 subscripts left to the bounds check -/
+theorem core_cross_local_clustering_fine (v : String → Int) (h : core_cross_local_clustering_contract v) :
+    PFine (core_cross_local_clustering_psites v) := by
+  unfold core_cross_local_clustering_contract at h
+  unfold core_cross_local_clustering_psites
+  psites_auto
+
+/-- `core:_nsi_cross_local_clustering` (numerics.pyx:288): 5 closed-form index expressions; 5 subscripts left to the bounds check -/
+theorem core_nsi_cross_local_clustering_fine (v : String → Int) (h : core_nsi_cross_local_clustering_contract v) :
+    PFine (core_nsi_cross_local_clustering_psites v) := by
+  unfold core_nsi_cross_local_clustering_contract at h
+  unfold core_nsi_cross_local_clustering_psites
+  psites_auto
+
+/-- `core:_local_cliquishness_4thorder` (numerics.pyx:316): 4 closed-form index expressions; 7 subscripts left to the bounds check -/
+theorem core_local_cliquishness_4thorder_fine (v : String → Int) (h : core_local_cliquishness_4thorder_contract v) :
+    PFine (core_local_cliquishness_4thorder_psites v) := by
+  unfold core_local_cliquishness_4thorder_contract at h
+  unfold core_local_cliquishness_4thorder_psites
+  psites_auto
+
+/-- `core:_local_cliquishness_5thorder` (numerics.pyx:355): 4 closed-form index expressions; 11 subscripts left to the bounds check -/
+theorem core_local_cliquishness_5thorder_fine (v : String → Int) (h : core_local_cliquishness_5thorder_contract v) :
+    PFine (core_local_cliquishness_5thorder_psites v) := by
+  unfold core_local_cliquishness_5thorder_contract at h
+  unfold core_local_cliquishness_5thorder_psites
+  psites_auto
+
+/-- `core:_nsi_betweenness` (numerics.pyx:399): 8 closed-form index expressions; 30 subscripts left to the bounds check -/
+theorem core_nsi_betweenness_fine (v : String → Int) (h : core_nsi_betweenness_contract v) :
+    PFine (core_nsi_betweenness_psites v) := by
+  unfold core_nsi_betweenness_contract at h
+  unfold core_nsi_betweenness_psites
+  psites_auto
+
+/-- `core:_mpi_newman_betweenness` (numerics.pyx:498): 11 closed-form index expressions -/
+theorem core_mpi_newman_betweenness_fine (v : String → Int) (h : core_mpi_newman_betweenness_contract v) :
+    PFine (core_mpi_newman_betweenness_psites v) := by
+  unfold core_mpi_newman_betweenness_contract at h
+  unfold core_mpi_newman_betweenness_psites
+  psites_auto
+
+/-- `core:_mpi_nsi_newman_betweenness` (numerics.pyx:535): 18 closed-form index expressions -/
+theorem core_mpi_nsi_newman_betweenness_fine (v : String → Int) (h : core_mpi_nsi_newman_betweenness_contract v) :
+    PFine (core_mpi_nsi_newman_betweenness_psites v) := by
+  unfold core_mpi_nsi_newman_betweenness_contract at h
+  unfold core_mpi_nsi_newman_betweenness_psites
+  psites_auto
+
+/-- `core:_calculate_angular_distance` (numerics.pyx:570): 12 closed-form index expressions -/
+theorem core_calculate_angular_distance_fine (v : String → Int) (h : core_calculate_angular_distance_contract v) :
+    PFine (core_calculate_angular_distance_psites v) := by
+  unfold core_calculate_angular_distance_contract at h
+  unfold core_calculate_angular_distance_psites
+  psites_auto
+
+/-- `core:_calculate_euclidean_distance` (numerics.pyx:594): 8 closed-form index expressions -/
+theorem core_calculate_euclidean_distance_fine (v : String → Int) (h : core_calculate_euclidean_distance_contract v) :
+    PFine (core_calculate_euclidean_distance_psites v) := by
+  unfold core_calculate_euclidean_distance_contract at h
+  unfold core_calculate_euclidean_distance_psites
+  psites_auto
+
+/-- `funcnet:_symmetrize_by_absmax` (numerics.pyx:24): 4 closed-form index expressions; 4 subscripts left to the bounds check -/
+theorem fn_symmetrize_by_absmax_fine (v : String → Int) (h : fn_symmetrize_by_absmax_contract v) :
+    PFine (fn_symmetrize_by_absmax_psites v) := by
+  unfold fn_symmetrize_by_absmax_contract at h
+  unfold fn_symmetrize_by_absmax_psites
+  psites_auto
+
+/-- `funcnet:_cross_correlation_max` (numerics.pyx:46): 10 closed-form index expressions -/
+theorem fn_cross_correlation_max_fine (v : String → Int) (h : fn_cross_correlation_max_contract v) :
+    PFine (fn_cross_correlation_max_psites v) := by
+  unfold fn_cross_correlation_max_contract at h
+  unfold fn_cross_correlation_max_psites
+  psites_auto
+
+/-- `funcnet:_cross_correlation_all` (numerics.pyx:82): 9 closed-form index expressions -/
+theorem fn_cross_correlation_all_fine (v : String → Int) (h : fn_cross_correlation_all_contract v) :
+    PFine (fn_cross_correlation_all_psites v) := by
+  unfold fn_cross_correlation_all_contract at h
+  unfold fn_cross_correlation_all_psites
+  psites_auto
+
+/-- `funcnet:_get_nearest_neighbors` (numerics.pyx:107): 38 closed-form index expressions; 12 subscripts left to the bounds check -/
+theorem fn_get_nearest_neighbors_fine (v : String → Int) (h : fn_get_nearest_neighbors_contract v) :
+    PFine (fn_get_nearest_neighbors_psites v) := by
+  unfold fn_get_nearest_neighbors_contract at h
+  unfold fn_get_nearest_neighbors_psites
+  psites_auto
+
+/-- `timeseries:_manhattan_distance_matrix_crp` (numerics.pyx:41): 6 closed-form index expressions -/
+theorem ts_manhattan_distance_matrix_crp_fine (v : String → Int) (h : ts_manhattan_distance_matrix_crp_contract v) :
+    PFine (ts_manhattan_distance_matrix_crp_psites v) := by
+  unfold ts_manhattan_distance_matrix_crp_contract at h
+  unfold ts_manhattan_distance_matrix_crp_psites
+  psites_auto
+
+/-- `timeseries:_euclidean_distance_matrix_crp` (numerics.pyx:62): 6 closed-form index expressions -/
+theorem ts_euclidean_distance_matrix_crp_fine (v : String → Int) (h : ts_euclidean_distance_matrix_crp_contract v) :
+    PFine (ts_euclidean_distance_matrix_crp_psites v) := by
+  unfold ts_euclidean_distance_matrix_crp_contract at h
+  unfold ts_euclidean_distance_matrix_crp_psites
+  psites_auto
+
+/-- `timeseries:_supremum_distance_matrix_crp` (numerics.pyx:83): 6 closed-form index expressions -/
+theorem ts_supremum_distance_matrix_crp_fine (v : String → Int) (h : ts_supremum_distance_matrix_crp_contract v) :
+    PFine (ts_supremum_distance_matrix_crp_psites v) := by
+  unfold ts_supremum_distance_matrix_crp_contract at h
+  unfold ts_supremum_distance_matrix_crp_psites
+  psites_auto
+
+/-- `timeseries:_embed_time_series_array` (numerics.pyx:108): 5 closed-form index expressions -/
+theorem ts_embed_time_series_array_fine (v : String → Int) (h : ts_embed_time_series_array_contract v) :
+    PFine (ts_embed_time_series_array_psites v) := by
+  unfold ts_embed_time_series_array_contract at h
+  unfold ts_embed_time_series_array_psites
+  simp only [PFine, List.forall_mem_cons, List.not_mem_nil, false_imp_iff, implies_true, and_true]
+  (with_reducible and_intros) <;> (
+    intro g
+    simp only [Bool.and_eq_true, decide_eq_true_eq] at g
+    -- `index = j * delay + k` with `k < n_time - (dimension - 1) * delay`: the product is monotone in `j`
+    have hj0 : 0 ≤ v "j" := by omega
+    have hj1 : v "j" ≤ v "dimension" - 1 := by omega
+    have ht : 0 ≤ v "delay" := by omega
+    have h1 := Int.mul_nonneg hj0 ht
+    have h2 := Int.mul_le_mul_of_nonneg_right hj1 ht
+    omega)
+
+/-- `timeseries:_recurrence_plot` (numerics.pyx:130): 8 closed-form index expressions -/
+theorem ts_recurrence_plot_fine (v : String → Int) (h : ts_recurrence_plot_contract v) :
+    PFine (ts_recurrence_plot_psites v) := by
+  unfold ts_recurrence_plot_contract at h
+  unfold ts_recurrence_plot_psites
+  psites_auto
+
+/-- `timeseries:_twins_s` (numerics.pyx:154): 20 closed-form index expressions; 2 subscripts left to the bounds check -/
+theorem ts_twins_s_fine (v : String → Int) (h : ts_twins_s_contract v) :
+    PFine (ts_twins_s_psites v) := by
+  unfold ts_twins_s_contract at h
+  unfold ts_twins_s_psites
+  psites_auto
+
+/-- `timeseries:_embed_time_series` (numerics.pyx:344): 3 closed-form index expressions -/
+theorem ts_embed_time_series_fine (v : String → Int) (h : ts_embed_time_series_contract v) :
+    PFine (ts_embed_time_series_psites v) := by
+  unfold ts_embed_time_series_contract at h
+  unfold ts_embed_time_series_psites
+  simp only [PFine, List.forall_mem_cons, List.not_mem_nil, false_imp_iff, implies_true, and_true]
+  (with_reducible and_intros) <;> (
+    intro g
+    simp only [Bool.and_eq_true, decide_eq_true_eq] at g
+    -- `index = j * tau + k` with `k < n_time - (dim - 1) * tau`: the product is monotone in `j`
+    have hj0 : 0 ≤ v "j" := by omega
+    have hj1 : v "j" ≤ v "dim" - 1 := by omega
+    have ht : 0 ≤ v "tau" := by omega
+    have h1 := Int.mul_nonneg hj0 ht
+    have h2 := Int.mul_le_mul_of_nonneg_right hj1 ht
+    omega)
+
+/-- `timeseries:_manhattan_distance_matrix_rp` (numerics.pyx:365): 8 closed-form index expressions -/
+theorem ts_manhattan_distance_matrix_rp_fine (v : String → Int) (h : ts_manhattan_distance_matrix_rp_contract v) :
+    PFine (ts_manhattan_distance_matrix_rp_psites v) := by
+  unfold ts_manhattan_distance_matrix_rp_contract at h
+  unfold ts_manhattan_distance_matrix_rp_psites
+  psites_auto
+
+/-- `timeseries:_euclidean_distance_matrix_rp` (numerics.pyx:385): 8 closed-form index expressions -/
+theorem ts_euclidean_distance_matrix_rp_fine (v : String → Int) (h : ts_euclidean_distance_matrix_rp_contract v) :
+    PFine (ts_euclidean_distance_matrix_rp_psites v) := by
+  unfold ts_euclidean_distance_matrix_rp_contract at h
+  unfold ts_euclidean_distance_matrix_rp_psites
+  psites_auto
+
+/-- `timeseries:_supremum_distance_matrix_rp` (numerics.pyx:406): 8 closed-form index expressions -/
+theorem ts_supremum_distance_matrix_rp_fine (v : String → Int) (h : ts_supremum_distance_matrix_rp_contract v) :
+    PFine (ts_supremum_distance_matrix_rp_psites v) := by
+  unfold ts_supremum_distance_matrix_rp_contract at h
+  unfold ts_supremum_distance_matrix_rp_psites
+  psites_auto
+
+/-- `timeseries:_set_adaptive_neighborhood_size` (numerics.pyx:428): 1 closed-form index expressions; 6 subscripts left to the bounds check -/
+theorem ts_set_adaptive_neighborhood_size_fine (v : String → Int) (h : ts_set_adaptive_neighborhood_size_contract v) :
+    PFine (ts_set_adaptive_neighborhood_size_psites v) := by
+  unfold ts_set_adaptive_neighborhood_size_contract at h
+  unfold ts_set_adaptive_neighborhood_size_psites
+  psites_auto
+
+/-- `timeseries:_bootstrap_distance_matrix_manhattan` (numerics.pyx:454): 5 closed-form index expressions; 2 subscripts left to the bounds check -/
+theorem ts_bootstrap_distance_matrix_manhattan_fine (v : String → Int) (h : ts_bootstrap_distance_matrix_manhattan_contract v) :
+    PFine (ts_bootstrap_distance_matrix_manhattan_psites v) := by
+  unfold ts_bootstrap_distance_matrix_manhattan_contract at h
+  unfold ts_bootstrap_distance_matrix_manhattan_psites
+  psites_auto
+
+/-- `timeseries:_bootstrap_distance_matrix_euclidean` (numerics.pyx:473): 5 closed-form index expressions; 2 subscripts left to the bounds check -/
+theorem ts_bootstrap_distance_matrix_euclidean_fine (v : String → Int) (h : ts_bootstrap_distance_matrix_euclidean_contract v) :
+    PFine (ts_bootstrap_distance_matrix_euclidean_psites v) := by
+  unfold ts_bootstrap_distance_matrix_euclidean_contract at h
+  unfold ts_bootstrap_distance_matrix_euclidean_psites
+  psites_auto
+
+/-- `timeseries:_bootstrap_distance_matrix_supremum` (numerics.pyx:493): 5 closed-form index expressions; 2 subscripts left to the bounds check -/
+theorem ts_bootstrap_distance_matrix_supremum_fine (v : String → Int) (h : ts_bootstrap_distance_matrix_supremum_contract v) :
+    PFine (ts_bootstrap_distance_matrix_supremum_psites v) := by
+  unfold ts_bootstrap_distance_matrix_supremum_contract at h
+  unfold ts_bootstrap_distance_matrix_supremum_psites
+  psites_auto
+
+/-- `timeseries:_twins_r` (numerics.pyx:530): 3 closed-form index expressions; 2 subscripts left to the bounds check -/
+theorem ts_twins_r_fine (v : String → Int) (h : ts_twins_r_contract v) :
+    PFine (ts_twins_r_psites v) := by
+  unfold ts_twins_r_contract at h
+  unfold ts_twins_r_psites
+  psites_auto
+
+/-- `timeseries:_visibility_relations_missingvalues` (numerics.pyx:801): 16 closed-form index expressions; 3 subscripts left to the bounds check -/
+theorem ts_visibility_relations_missingvalues_fine (v : String → Int) (h : ts_visibility_relations_missingvalues_contract v) :
+    PFine (ts_visibility_relations_missingvalues_psites v) := by
+  unfold ts_visibility_relations_missingvalues_contract at h
+  unfold ts_visibility_relations_missingvalues_psites
+  psites_auto
+
+/-- `timeseries:_visibility_relations_no_missingvalues` (numerics.pyx:829): 14 closed-form index expressions; 2 subscripts left to the bounds check -/
+theorem ts_visibility_relations_no_missingvalues_fine (v : String → Int) (h : ts_visibility_relations_no_missingvalues_contract v) :
+    PFine (ts_visibility_relations_no_missingvalues_psites v) := by
+  unfold ts_visibility_relations_no_missingvalues_contract at h
+  unfold ts_visibility_relations_no_missingvalues_psites
+  psites_auto
+
+/-- `timeseries:_visibility_relations_horizontal` (numerics.pyx:854): 10 closed-form index expressions; 1 subscripts left to the bounds check -/
+theorem ts_visibility_relations_horizontal_fine (v : String → Int) (h : ts_visibility_relations_horizontal_contract v) :
+    PFine (ts_visibility_relations_horizontal_psites v) := by
+  unfold ts_visibility_relations_horizontal_contract at h
+  unfold ts_visibility_relations_horizontal_psites
+  psites_auto
+
+/-- `timeseries:_retarded_local_clustering` (numerics.pyx:877): 9 closed-form index expressions -/
+theorem ts_retarded_local_clustering_fine (v : String → Int) (h : ts_retarded_local_clustering_contract v) :
+    PFine (ts_retarded_local_clustering_psites v) := by
+  unfold ts_retarded_local_clustering_contract at h
+  unfold ts_retarded_local_clustering_psites
+  psites_auto
+
+/-- `timeseries:_advanced_local_clustering` (numerics.pyx:902): 9 closed-form index expressions -/
+theorem ts_advanced_local_clustering_fine (v : String → Int) (h : ts_advanced_local_clustering_contract v) :
+    PFine (ts_advanced_local_clustering_psites v) := by
+  unfold ts_advanced_local_clustering_contract at h
+  unfold ts_advanced_local_clustering_psites
+  psites_auto
+
+/-- the hypotheses are satisfiable and the site lists are not empty: a 5-sample, 2-dimensional
+embedding handed to the Manhattan kernel; `_embed_time_series` with `dim = 3`, `tau = 2` -/
+example : ts_manhattan_distance_matrix_rp_contract
+    (fun s => if s = "n_time" ∨ s = "embedding_0" then 5 else if s = "dim" ∨ s = "embedding_1" then 2 else 0) := by
+  simp [ts_manhattan_distance_matrix_rp_contract]
+example : (ts_manhattan_distance_matrix_rp_psites (fun _ => 0)).length = 8
+    ∧ (ts_embed_time_series_psites (fun _ => 0)).length = 3 := by decide
+/-- an embedding with too few rows violates the contract, and then a listed index does leave its axis -/
+example : ¬ PFine (ts_manhattan_distance_matrix_rp_psites
+    (fun s => if s = "n_time" then 5 else if s = "embedding_0" then 4 else if s = "j" then 4
+      else if s = "dim" ∨ s = "embedding_1" then 2 else 0)) := by
+  intro h
+  unfold ts_manhattan_distance_matrix_rp_psites at h
+  have := h _ List.mem_cons_self (by simp)
+  simp at this
+
+/-- integer counters of the kernels (`x += 1`, `x -= 1` on a typed C integer): every scalar counter
+is at least 32 bits wide, and the only buffer that is counted in place in a narrower element type is
+`nR` (int16) of `_twins_s` — it starts at `n_time` and is decremented at most `n_time - 1` times, so it
+stays in `[1, n_time]` and fits for `n_time < 2^15`; beyond that the conversion is
+implementation-defined (not undefined) and the value is only a pre-filter of the exact row comparison -/
+theorem narrow_counters_census :
+    scalar_counters.all (fun c => decide (32 ≤ c.2.2.1)) = true
+    ∧ buffer_counters.filter (fun c => decide (c.2.2.1 < 32)) = [("timeseries:_twins_s", "nR", 16, "-=")] := by
   decide
 
 end Pyunicorn.Access
